@@ -134,18 +134,8 @@ func runC11(c *Ctx, r *Report) {
 		}
 		tf.Edge = func(cond ast.Expr, taken bool, f Facts) {
 			for _, a := range splitCond(cond, taken) {
-				be, ok := ast.Unparen(a.E).(*ast.BinaryExpr)
-				if !ok {
-					continue
-				}
-				if v, _ := p.FieldSel(fe, be.X); v != timeoutF {
-					continue
-				}
-				if lit, ok := ast.Unparen(be.Y).(*ast.BasicLit); !ok || lit.Value != "0" {
-					continue
-				}
 				// the side on which the timeout is known to be <= 0
-				if (be.Op == token.GTR && !a.Truth) || (be.Op == token.LEQ && a.Truth) || (be.Op == token.EQL && a.Truth) || (be.Op == token.NEQ && !a.Truth) {
+				if nc, ok := p.normalizeCmp(fe, a, func(e ast.Expr) bool { v, _ := p.FieldSel(fe, e); return v == timeoutF }); ok && nc.impliesNonPositive() {
 					f["fine"] = true // no timeout configured on this path
 				}
 			}
@@ -446,14 +436,12 @@ func runC11(c *Ctx, r *Report) {
 	drain.Edge = func(cond ast.Expr, taken bool, f Facts) {
 		// leaving `for counter > 0 {Wait}`: on the false edge of counter > 0 the counter is known drained
 		for _, a := range splitCond(cond, taken) {
-			if be, ok := ast.Unparen(a.E).(*ast.BinaryExpr); ok {
-				if id, ok := ast.Unparen(be.X).(*ast.Ident); ok && p.ObjOf(pq, id) == counter {
-					if lit, ok := ast.Unparen(be.Y).(*ast.BasicLit); ok && lit.Value == "0" {
-						if (be.Op == token.GTR && !a.Truth) || (be.Op == token.EQL && a.Truth) || (be.Op == token.LEQ && a.Truth) || (be.Op == token.NEQ && !a.Truth) {
-							f["drained"] = true
-						}
-					}
-				}
+			isCounter := func(e ast.Expr) bool {
+				id, ok := ast.Unparen(e).(*ast.Ident)
+				return ok && p.ObjOf(pq, id) == counter
+			}
+			if nc, ok := p.normalizeCmp(pq, a, isCounter); ok && nc.impliesNonPositive() {
+				f["drained"] = true
 			}
 		}
 	}
